@@ -81,13 +81,15 @@ theorem steps_of_straight {μ : Type} {M : Sem μ} {cfg : Cfg} :
 
 /-- **The C07 hypothesis**: every expansion the pass can emit for a gate `g` acts on the memory
 (which includes the quantum state, up to global phase) as `g` itself does, provided the pass's
-knowledge `rv` of the operand registers is what they hold, and it changes no register other than
+knowledge `rv` of the operand registers is what they hold and `used` contains the gate's own operand
+registers (as it does when the pass reaches the gate), and it changes no register other than
 the one `get_unused_register` would hand out. -/
 def ExpandSound {μ : Type} (M : Sem μ) (cfg : Cfg) : Prop :=
   ∀ (g : Instr) (info : ClsInfo) (rv : List (Reg × Int)) (used : List Reg) (ex : List Instr)
     (s u s' : St μ),
     infoOf cfg g.cls = some info → infoGate info = true →
     expandInstr cfg info rv used g = .ok ex →
+    (∀ r ∈ topRegs g, r ∈ used) →
     (∀ r ∈ topRegs g, ∀ v, rv.lookup r = some v → s.regs r = some v) →
     (info.gate2 = true → ∀ r ∈ topRegs g, (rv.lookup r).isSome = true) →
     s.mem = u.mem → (∀ r ∈ topRegs g, s.regs r = u.regs r) →
